@@ -68,7 +68,7 @@ def main():
                     os.remove('/tmp/demo-%s' % sid)
                 except OSError:
                     pass
-                rc, out = sh('g++ -std=c++17 -O1 %s %s -o /tmp/demo-%s %s/_b/src/libteakra.a %s/_b/src/libteakra_c.a -pthread 2>&1 | tail -5' %
+                rc, out = sh('g++ -std=c++17 -O1 %s %s -o /tmp/demo-%s %s/_b/src/libteakra_c.a %s/_b/src/libteakra.a -pthread 2>&1 | tail -5' %
                              (inc, os.path.join(dd, demo), sid, wt, wt), timeout=900)
                 if not os.path.exists('/tmp/demo-%s' % sid):
                     meta['ran'].append('%s: demo compile failed: %s' % (tag, out[-300:]))
